@@ -44,6 +44,19 @@ fn main() {
     if args[1] == "__c10_child" {
         std::process::exit(c10::child_main(args[2].parse().unwrap_or(1), args[3].parse().unwrap_or(10), args[4].parse().unwrap_or(1)));
     }
+    if args[1] == "__legs" {
+        // development aid: run only the sanitizer legs of C07 / C10
+        cfg::install_quiet_panic_hook();
+        let ctx = Ctx::new(&args[2].to_uppercase(), "thorough", 1, "exploration");
+        let v = if args[2].eq_ignore_ascii_case("c07") { sanitize::miri_leg(&ctx, "c07") } else { sanitize::c10_legs(&ctx) };
+        println!("{v}");
+        let st = ctx.run.total.lock().unwrap();
+        println!("evaluations={} decided={} counters={:?}", st.evaluations, st.decided, st.counters);
+        for v in &st.verdicts {
+            println!("{v:?}");
+        }
+        return;
+    }
     let prop = args[1].to_uppercase();
     let mut tier = std::env::var("VERIF_TIER").ok().filter(|t| t == "quick" || t == "thorough").unwrap_or_else(|| "quick".to_string());
     let mut seed: u64 = std::env::var("VERIF_SEED").ok().and_then(|s| s.parse().ok()).unwrap_or(1);
